@@ -87,7 +87,26 @@ Definition parse_bracket (r : str) : option (gatom * str) :=
     | c :: r' => if mem c invert_chars then (true, r') else (false, r)
     | [] => (false, r)
     end in
-  let '(items, r2) := parse_members (length r1) r1 in
+  (* rule leading_right_bracket (only in trees that have it): "]" "-" single / "]" *)
+  let '(first, r1) :=
+    match r1 with
+    | c :: r' =>
+        if peg_leading_rbracket && N.eqb c c_rbrack then
+          match r' with
+          | d :: r'' =>
+              if N.eqb d c_dash then
+                match parse_single r'' with
+                | Some (m2, r3) => ([BRange (MEsc c_rbrack) m2], r3)
+                | None => ([BOne (MEsc c_rbrack)], r')
+                end
+              else ([BOne (MEsc c_rbrack)], r')
+          | [] => ([BOne (MEsc c_rbrack)], r')
+          end
+        else ([], r1)
+    | [] => ([], r1)
+    end in
+  let '(items0, r2) := parse_members (length r1) r1 in
+  let items := first ++ items0 in
   match items, r2 with
   | _ :: _, c :: r3 => if N.eqb c c_rbrack then Some (GBracket neg items, r3) else None
   | _, _ => None
